@@ -338,7 +338,11 @@ def run(tier: str, seed: int, replay: str | None = None) -> int:
     if kd.exists():
         for f in json.loads(kd.read_text()).get("findings", []):
             if f.get("property") == PROP and f.get("status") == "known":
-                chk.known["known"].setdefault(f["key"], f)
+                chk.known["known"][f["key"]] = f
+                chk.known["fixed"].pop(f["key"], None)
+            elif f.get("property") == PROP and str(f.get("status", "")).startswith("fixed"):
+                chk.known["fixed"][f["key"]] = f     # a fixed entry suppresses nothing: observed again = violation
+                chk.known["known"].pop(f["key"], None)
     chk.rule = ("seeded multi-language projects (3-10 files in nested directories, hard-excluded and ignored paths, files sharing "
                 "duplicate code, constants and string-set patterns, some files with a duplicate inside themselves); per case one "
                 "command-line run (real `thailint <cmd> --format json` process or in-process execute_linting_on_paths on a fresh "
